@@ -142,8 +142,11 @@ func checkSet(l []RS, probes []RS, v *vt.V) (ociauth.Scope, bool) {
 			return fail("holds", "Holds(%v) = %v, membership is %v", p, s.Holds(p), want[p])
 		}
 	}
-	if !ociauth.UnlimitedScope().Contains(s) || (len(want) > 0 && s.Contains(ociauth.UnlimitedScope())) {
+	if !ociauth.UnlimitedScope().Contains(s) || s.Contains(ociauth.UnlimitedScope()) {
 		return fail("unlimited", "unlimited scope containment wrong")
+	}
+	if s.Equal(ociauth.UnlimitedScope()) || ociauth.UnlimitedScope().Equal(s) {
+		return fail("unlimited", "a finite scope and the unlimited scope compare equal")
 	}
 	// same set, other presentation (reversed, duplicated)
 	var alt []RS
@@ -225,13 +228,23 @@ var universe = func() []RS {
 			}
 		}
 	}
+	// the wider part (used by the single-set enumeration): an unrecognised action that sorts
+	// between "pull" and "push", and a case variant of a recognised one
+	for _, t := range uniTypes {
+		for _, r := range uniRes {
+			for _, a := range []string{"purge", "PULL"} {
+				u = append(u, RS{ResourceType: t, Resource: r, Action: a})
+			}
+		}
+	}
 	return u
 }()
 
-// subsets of the universe of size <= k, as index lists
-func subsets(k int) [][]int {
+const baseN = 60 // the triples the pair enumeration ranges over
+
+// subsets of the first n triples of the universe of size <= k, as index lists
+func subsets(k, n int) [][]int {
 	out := [][]int{{}}
-	n := len(universe)
 	for i := 0; i < n; i++ {
 		out = append(out, []int{i})
 	}
@@ -311,7 +324,7 @@ type SetScript struct {
 var propSets = &vt.Prop[SetScript]{
 	ID:   "C09",
 	Name: "ScopeSetsSmallUniverse",
-	Rule: "complete enumeration of all subsets of size <= 3 of the 60-triple universe; oracle = naive set model: Len, IsEmpty, Iter (exact elements, strictly ascending, stops when told), Holds for all 60 triples, equality with the reversed and duplicated presentation, containment vs unlimited, print/parse round trip on the stated domain (non-empty fields without whitespace, colon, comma), catalog vs repository separation; every non-empty set is non-trivial",
+	Rule: "complete enumeration of all subsets of size <= 3 of the 60-triple universe widened by the actions 'purge' (sorts between pull and push) and 'PULL' (84 triples); oracle = naive set model: Len, IsEmpty, Iter (exact elements, strictly ascending, stops when told), Holds for all 84 triples, equality with the reversed and duplicated presentation, containment vs unlimited (incl. the empty set) and inequality with it, print/parse round trip on the stated domain (non-empty fields without whitespace, colon, comma), catalog vs repository separation; every non-empty set is non-trivial",
 	Run: func(s SetScript, v *vt.V) {
 		l := pick(s.A)
 		if _, ok := checkSet(l, universe, v); !ok {
@@ -326,7 +339,7 @@ var propSets = &vt.Prop[SetScript]{
 func TestPropSets(t *testing.T) {
 	shard, shards := vt.Shard()
 	vt.Enumerate(t, propSets, true, func(yield func(SetScript) bool) {
-		for i, s := range subsets(3) {
+		for i, s := range subsets(3, len(universe)) {
 			if i%shards != shard {
 				continue
 			}
@@ -339,10 +352,10 @@ func TestPropSets(t *testing.T) {
 
 func TestPropPairs(t *testing.T) {
 	shard, shards := vt.Shard()
-	as := subsets(2)
+	as := subsets(2, baseN)
 	bs := as
 	if vt.Thorough() {
-		bs = subsets(3)
+		bs = subsets(3, baseN)
 	}
 	vt.Enumerate(t, propPairs, true, func(yield func(PairScript) bool) {
 		k := 0
@@ -381,7 +394,7 @@ func genRS(t *rapid.T) RS {
 	return RS{
 		ResourceType: field("type", []string{"repository", "repository", "registry", "other"}),
 		Resource:     field("res", []string{"foo", "bar", "foo/bar", "catalog", "a"}),
-		Action:       field("act", []string{"pull", "push", "*", "delete"}),
+		Action:       field("act", []string{"pull", "push", "*", "delete", "purge", "pulx", "PULL", "Push"}),
 	}
 }
 
